@@ -261,9 +261,24 @@ func c12(c *Ctx) {
 	nseq := c.Pick(1500, 20000)
 	for i := 0; i < nseq; i++ {
 		n := c.R.Range(5, 60)
-		ops := make([]tkOp, n)
-		for j := range ops {
-			ops[j] = genTkOp(c.R, nicks, chans)
+		var ops []tkOp
+		if c.R.P(2, 3) { // build some state first: channels, nicks, memberships (me on some of them)
+			for _, ch := range chans[1:] {
+				if c.R.P(2, 3) {
+					ops = append(ops, tkOp{name: "NewChannel", args: []string{ch}})
+				}
+			}
+			for _, nk := range nicks[2:] {
+				if c.R.P(2, 3) {
+					ops = append(ops, tkOp{name: "NewNick", args: []string{nk}})
+				}
+			}
+			for k := c.R.Range(2, 8); k > 0; k-- {
+				ops = append(ops, tkOp{name: "Associate", args: []string{chans[c.R.Range(1, len(chans)-1)], nicks[c.R.Range(1, len(nicks)-1)]}})
+			}
+		}
+		for j := 0; j < n; j++ {
+			ops = append(ops, genTkOp(c.R, nicks, chans))
 		}
 		cases = append(cases, tkSequenceCase(ops, nicks, chans, "random walk"))
 		if len(cases) >= 300 {
